@@ -54,6 +54,8 @@ file), `both` (DAG file: k, base configuration: another value — the DAG's own 
 Signature: C15:limit-from-base-configuration-not-respected:<layout>   (where in {base, both}; flagcfg/base: see rule 7)
            C15:limit-from-dag-file-not-respected:<layout>             (where = dag)
 Replay case: {"cmd_case": {"layout", "where", "k"}}.
+
+(Rule 7 describes the tree BEFORE fix 5b01f18 / F51: since then `--config FILE` is honoured - config.Load sets the explicit file again after setupViper - and the `flagcfg` layout respects the limit.)
 """
 import json, os, shutil, subprocess, sys, tempfile, time
 from concurrent.futures import ThreadPoolExecutor
